@@ -261,6 +261,7 @@ type minfo struct {
 	rest      bool
 	params    []string
 	recursive bool // first operand must be a small literal counter
+	vecOfRest bool     // expands to the vector of its rest operands
 	extra     []string // names the template may also unquote (the parameter of a macro factory)
 }
 
@@ -297,10 +298,16 @@ func (g *mg) code(d int, m minfo) val.V {
 		return uq()
 	}
 	a := func() val.V { return g.code(d-1, m) }
-	switch c := g.pick("ckind", 15); {
+	switch c := g.pick("ckind", 16); {
 	case c == 14:
 		// the expansion holds a template of its own
 		return call("quasiquote", lst(a(), a()))
+	case c == 15:
+		// a vector whose first element is the NAME of a macro: data, not a macro call
+		if prev := nonRec(g.macros); len(prev) > 0 {
+			return val.Vc(sym(prev[g.pick("cvecm", len(prev))].name), a(), a())
+		}
+		return val.Vc(sym("cond"), a(), a())
 	case c >= 12:
 		if prev := nonRec(g.macros); len(prev) > 0 {
 			p := prev[0]
@@ -442,6 +449,10 @@ func genMacroCase(t *rapid.T) Case {
 			body = call("if", call("<", sym(m.params[0]), val.I(1)), call("quote", call("trace!", val.K("base"))),
 				call("quasiquote", call("do", inner, val.V{K: val.List, L: rec})))
 			m.recursive = true
+		case k == 4 && m.rest:
+			// the whole expansion is a vector of the operands (the first operand may name a macro)
+			body = call("quasiquote", val.Vc(call("splice-unquote", sym("r"))))
+			m.vecOfRest = true
 		default:
 			body = call("quasiquote", g.code(3, m))
 		}
@@ -491,6 +502,9 @@ func genMacroCase(t *rapid.T) Case {
 			args = append(args, g.operand(2))
 		}
 		if m.rest {
+			if m.vecOfRest && len(g.macros) > 0 && g.pick("vechead", 2) == 0 {
+				args = append(args, sym(g.macros[g.pick("vecheadm", len(g.macros))].name))
+			}
 			for i := 0; i < g.pick("nrest3", 3); i++ {
 				args = append(args, g.operand(2))
 			}
@@ -513,6 +527,42 @@ func genMacroCase(t *rapid.T) Case {
 		// mention that name are evaluated in the caller's scope and must call the function
 		m := g.macros[0]
 		c = call("let", lst(sym(m.name), call("fn", lst(sym("&"), sym("xs")), call("list", val.K("local-fn"), sym("xs")))), c)
+	}
+	switch g.pick("wrap2", 8) {
+	case 0:
+		// the macro is reached through another global name that no defmacro ever mentioned
+		if c.K == val.List && len(c.L) > 0 && c.L[0].K == val.Sym {
+			for _, m := range g.macros {
+				if m.name == c.L[0].S {
+					defs = append(defs, call("def", sym("alias-"+m.name), sym(m.name)))
+					c = val.V{K: val.List, L: append([]val.V{sym("alias-" + m.name)}, c.L[1:]...)}
+					break
+				}
+			}
+		}
+	case 1:
+		// … or through a local name
+		if c.K == val.List && len(c.L) > 0 && c.L[0].K == val.Sym {
+			for _, m := range g.macros {
+				if m.name == c.L[0].S {
+					c = call("let", lst(sym("u"), sym(m.name)), val.V{K: val.List, L: append([]val.V{sym("u")}, c.L[1:]...)})
+					break
+				}
+			}
+		}
+	case 2:
+		// … or as an argument
+		if c.K == val.List && len(c.L) > 0 && c.L[0].K == val.Sym {
+			for _, m := range g.macros {
+				if m.name == c.L[0].S {
+					c = lst(call("fn", lst(sym("u")), val.V{K: val.List, L: append([]val.V{sym("u")}, c.L[1:]...)}), sym(m.name))
+					break
+				}
+			}
+		}
+	case 3:
+		// a vector literal whose first element names a macro is data
+		c = val.Vc(sym(g.macros[0].name), call("trace!", g.nextTrace()), sym("w"))
 	}
 	if factoryOf != "" || g.pick("twice", 5) == 0 {
 		// the same call form, read once, is evaluated twice; in between the macro name may be re-defined
